@@ -31,7 +31,7 @@ struct Result {
   bool raw_high_byte = false; // raw byte >= 0x80 inside a string (UTF-8 text; byte/char models differ)
   bool int_out_of_range = false; // integer numeral outside int64
   bool float_out_of_range = false; // numeral with fraction/exponent whose value is not zero or within 1e-300..1e300
-  bool exp_digits_gt3 = false; // exponent with more than 3 digits
+  bool exp_digits_gt3 = false; // exponent whose VALUE exceeds 999: more than 3 digits after its leading zeros (e0000000002 is 2)
   bool long_numeral = false; // more than 40 digits in one numeral
   bool too_deep = false; // nesting beyond the limit given to the parser
   // --- shape (for the non-trivial rule)
@@ -201,10 +201,16 @@ private:
       p++;
       if (!eof() && (cur() == '+' || cur() == '-')) p++;
       if (eof() || !dig(cur())) fail("digit expected in exponent");
+      // The domain rule is about the exponent's VALUE (a scanner may loop |exponent| times), not about how it is spelled:
+      // exp = e [+-] 1*DIGIT admits any number of leading zeros, and 1e0000000002 is the number 100.
       size_t ed = 0;
+      bool leading = true;
       while (!eof() && dig(cur())) {
+        if (!(leading && cur() == '0')) {
+          leading = false;
+          ed++;
+        }
         p++;
-        ed++;
       }
       if (ed > 3) r.exp_digits_gt3 = true;
     }
